@@ -1,4 +1,5 @@
 import KojenVerif.Lemmas.OutStage
+import KojenVerif.Lemmas.OutStageRun
 /-
   C05 — interrupted generation never destroys an existing file (per-file atomicity).
 
@@ -95,6 +96,58 @@ theorem C05_nothing_touched_before_first_rename (outdir : Str) (kv : Str × List
     simp only [List.length_append, List.length_cons, List.length_nil] at hk; omega
   rw [List.take_append_of_le_length hk']
   exact entryPre_take_get? _ _ k fs₀ q hq
+
+
+/-! ### the whole run: output stage followed by the copy of the support sources (`FileCopyUtil` after fix 32442d3)
+
+  kojen's default (`copyotherfiles=True`) copies the shipped support sources below `<out>/allplatforms` after the
+  output stage.  `runBlocks outdir cm calls` is the run as a list of blocks (directories and files put through their
+  temporary file), `prog` its operations; `prog (runBlocks outdir cm []) = script outdir cm`. -/
+/-- **The whole run, support copy included: process death at any operation.** -/
+theorem C05_whole_run_atomic (outdir : Str) (cm : CodeModel) (calls : List CopyCall) (fs₀ : FS) (k cut : Nat) (q : Str)
+    (hq : NotTmpB (runBlocks outdir cm calls) q) :
+    SafeB (runBlocks outdir cm calls) fs₀ (crashAt (prog (runBlocks outdir cm calls)) k cut fs₀) q :=
+  run_crash_safe _ fs₀ k cut q hq
+
+theorem C05_whole_run_raised_error (outdir : Str) (cm : CodeModel) (calls : List CopyCall) (fs₀ : FS) (k : Nat) (q : Str)
+    (hq : NotTmpB (runBlocks outdir cm calls) q) :
+    SafeB (runBlocks outdir cm calls) fs₀ (errorAt (prog (runBlocks outdir cm calls)) k fs₀) q :=
+  run_error_safe _ fs₀ k q hq
+
+/-- the "complete new content" of a path of the run is a generated file or a shipped support file -/
+theorem C05_whole_run_contents (outdir : Str) (cm : CodeModel) (calls : List CopyCall) (p : Str) (chunks : List Str) (m : Str)
+    (h : Blk.put p chunks m ∈ runBlocks outdir cm calls) :
+    (∃ kv ∈ cm, p = Path.join outdir kv.1 ∧ chunks.flatten = outputContent kv.2) ∨
+    (∃ c ∈ calls, ∃ f ∈ c.files, p = Path.join c.dirTo f.1 ∧ chunks.flatten = f.2.2) := by
+  simp only [runBlocks, List.mem_append, List.mem_flatMap] at h
+  rcases h with h | ⟨c, hc, h⟩
+  · left
+    simp only [stageBlocks, List.mem_flatMap, List.mem_cons, List.not_mem_nil, or_false] at h
+    obtain ⟨kv, hkv, h⟩ := h
+    rcases h with h | h
+    · cases h
+    · cases h
+      exact ⟨kv, hkv, rfl, rfl⟩
+  · right
+    simp only [copyBlocks, List.mem_cons, List.mem_map] at h
+    rcases h with h | ⟨f, hf, h⟩
+    · cases h
+    · cases h
+      exact ⟨c, hc, f, hf, rfl, by simp⟩
+
+/-- without copies the run is the output stage of `C05_per_file_atomic` -/
+theorem C05_run_without_copies (outdir : Str) (cm : CodeModel) : prog (runBlocks outdir cm []) = script outdir cm := by
+  simp [runBlocks, script_eq_prog]
+
+def exCM2 : CodeModel := [(ofString "A.h", [ofString "a\n", ofString "\tb\n"])]
+def exCalls : List CopyCall := [⟨ofString "out/allplatforms", [(ofString "basetypes.h", ofString "/pkg/basetypes.h", ofString "#pragma once\n\tint x;\n")]⟩]
+def exFS2 : FS := [(ofString "out/A.h", ofString "old user code\n"), (ofString "out/allplatforms/basetypes.h", ofString "stale\n")]
+-- 7 operations of the output stage, then mkdirs, openTmp, write, close, copymode, replace (6)
+example : (prog (runBlocks (ofString "out") exCM2 exCalls)).length = 13 := by decide +kernel
+example : ODict.get? (crashAt (prog (runBlocks (ofString "out") exCM2 exCalls)) 11 3 exFS2) (ofString "out/allplatforms/basetypes.h") = some (ofString "stale\n") := by
+  decide +kernel
+example : ODict.get? (crashAt (prog (runBlocks (ofString "out") exCM2 exCalls)) 13 0 exFS2) (ofString "out/allplatforms/basetypes.h") = some (ofString "#pragma once\n\tint x;\n") := by
+  decide +kernel
 
 /-! non-vacuity: two files, one pre-existing with user code; crash inside the second write -/
 section Example
